@@ -317,19 +317,26 @@ pub fn worker(idx: usize) {
                             viols.push(json!([ci, k.name(), mname, format!("with_reader:{}", v.class), format!("(a reader opened before the failing commit is kept open) {}", v.detail), "reader"]));
                         }
                     }
+                    // a second fault in a follow-up commit.  thorough: in the large second follow-up at
+                    // each of its first 24 calls; every tier: after a first fault that hit a sync (the
+                    // commits that may be half through), in the first and in the second follow-up
+                    let mut second_sets: Vec<(usize, usize)> = vec![];
                     if pairs && kinds.len() <= 14 {
-                        // second fault in the second follow-up commit (the large one), at every call
-                        let fu_kinds = {
-                            // count calls of follow-up 2 after this first fault: run once without second fault but counting
-                            // (approximation: use this commit's own kinds length as bound and let unreachable indices be skipped)
-                            24usize
-                        };
-                        for cj in 0..fu_kinds {
+                        second_sets.push((1, 24));
+                    }
+                    if *k == Kind::Fsync && kinds.len() <= 14 {
+                        second_sets.push((0, 14));
+                        if !pairs {
+                            second_sets.push((1, 14));
+                        }
+                    }
+                    for (which, ncalls) in second_sets {
+                        for cj in 0..ncalls {
                             cases += 1;
                             let f2 = Fault::at(cj as u64, FaultMode::Errno(libc::EIO));
-                            let out2 = run_case(sc, &path2, step, Some(f), Some((1, f2)));
+                            let out2 = run_case(sc, &path2, step, Some(f), Some((which, f2)));
                             for v in out2.violations {
-                                viols.push(json!([ci, k.name(), mname, v.class, v.detail, cj]));
+                                viols.push(json!([ci, k.name(), mname, v.class, v.detail, cj + 1000 * (which + 1)]));
                             }
                         }
                     }
@@ -414,7 +421,7 @@ pub fn run(check: &mut Check) {
     found.sort_by(|a, b| (a.0, a.1, a.2, &a.4).cmp(&(b.0, b.1, b.2, &b.4)));
     for (si, step, call, kind, mode, class, detail, second) in found {
         let sc = &scs[si];
-        check.violation(&class, &format!("[script {} commit at step {}: call #{} ({}) fails with {}{}] {}", sc.name, step, call, kind, mode, if second.is_null() || second.as_str().is_some() { String::new() } else { format!(", second fault EIO at call #{} of follow-up 2", second) }, detail), || {
+        check.violation(&class, &format!("[script {} commit at step {}: call #{} ({}) fails with {}{}] {}", sc.name, step, call, kind, mode, if second.is_null() || second.as_str().is_some() { String::new() } else { format!(", second fault EIO at call #{} of follow-up {}", second.as_u64().unwrap_or(0) % 1000, if second.as_u64().unwrap_or(0) < 1000 { 2 } else { second.as_u64().unwrap_or(0) / 1000 }) }, detail), || {
             json!({"engine": "faultx", "tier": tier.name(), "script": sc.name, "script_index": si, "step": step, "call": call, "kind": kind, "mode": mode, "second": second, "actions": sc.actions.iter().map(|a| a.to_json()).collect::<Vec<_>>()})
         });
     }
@@ -457,7 +464,7 @@ pub fn replay(v: &Value) -> i32 {
             }
         };
         let f = Fault::at(call, mode);
-        let out = run_case_x(sc, &path, step, Some(f), second.map(|cj| (1usize, Fault::at(cj, FaultMode::Errno(libc::EIO)))), with_reader, rollback_first);
+        let out = run_case_x(sc, &path, step, Some(f), second.map(|cj| if cj >= 1000 { ((cj / 1000 - 1) as usize, Fault::at(cj % 1000, FaultMode::Errno(libc::EIO))) } else { (1usize, Fault::at(cj, FaultMode::Errno(libc::EIO))) }), with_reader, rollback_first);
         println!("outcome of the failed commit: {}", out.outcome);
         for x in &out.violations {
             println!("   !! {}: {}", x.class, x.detail);
